@@ -128,3 +128,450 @@ def c08_task(arg):
                 out["rejected"] += 1
         out["violations"] = out["violations"][:12]
     return out
+
+
+def _cmp_step(n, k, c, a, px, e, is_sup, a_done, errs, sup_last):
+    """one executed compiled row (node n, seq k): compiled record c vs threaded record a vs reference payload px"""
+    from vf.probes import f32_bits
+
+    def err(sig, *d):
+        if len(errs) < 10:
+            errs.append((sig, (n, k) + d))
+
+    if c["eps"][k] != e:
+        err("eps", c["eps"][k], e)
+    if c["seq"][k] != k:
+        err("seq", c["seq"][k])
+    if c["ts_bits"][k] != px["ts_bits"]:
+        err("ts_start:vs-reference", c["ts_start"][k])
+    if tuple(c["rng"][k]) != tuple(px["rng"]):
+        err("rng:vs-reference", c["rng"][k], px["rng"])
+    if c["state_h"][k] != px["state_before"]:
+        err("state:vs-reference", c["state_h"][k], px["state_before"])
+    if not (is_sup and k == sup_last) and c["out_h"][k] != px["out_h"]:
+        err("output:vs-reference", c["out_h"][k], px["out_h"])
+    for o, w in c["inputs"].items():
+        expw = px["windows"][o]
+        for x, (s, ta, tb, dh) in enumerate(expw):
+            gs_ = w["seq"][k][x]
+            if (gs_ < 0) != (s < 0) or (s >= 0 and gs_ != s):
+                err("window.seq:vs-reference", o, w["seq"][k], [y[0] for y in expw])
+                break
+            if w["data_h"][k][x] != dh:
+                err("window.payload:vs-reference", o, w["data_h"][k], [y[3] for y in expw])
+                break
+            if s >= 0 and (f32_bits(w["ts_sent"][k][x]) != f32_bits(ta) or f32_bits(w["ts_recv"][k][x]) != f32_bits(tb)):
+                err("window.ts:vs-reference", o, (w["ts_sent"][k][x], w["ts_recv"][k][x]), (ta, tb))
+                break
+    if a is None or k >= len(a["seq"]):
+        err("step-not-in-threaded-record")
+        return
+    if is_sup and k > a_done:
+        return  # the threaded run never executed (nor observed) this supervisor step
+    if f32_bits(a["ts_start"][k]) != c["ts_bits"][k]:
+        err("ts_start:vs-threaded", c["ts_start"][k], a["ts_start"][k])
+    if tuple(a["rng"][k]) != tuple(c["rng"][k]):
+        err("rng:vs-threaded", c["rng"][k], a["rng"][k])
+    if a["state_h"][k] != c["state_h"][k]:
+        err("state:vs-threaded", c["state_h"][k], a["state_h"][k])
+    if k < len(a["out_h"]) and not (is_sup and (k >= a_done or k == sup_last)) and a["out_h"][k] != c["out_h"][k]:
+        err("output:vs-threaded", c["out_h"][k], a["out_h"][k])
+    for o, w in c["inputs"].items():
+        aw = a["inputs"][o]
+        for x in range(len(w["seq"][k])):
+            gs_, as_ = w["seq"][k][x], aw["seq"][k][x]
+            if (gs_ < 0) != (as_ < 0) or (as_ >= 0 and gs_ != as_):
+                err("window.seq:vs-threaded", o, w["seq"][k], aw["seq"][k])
+                break
+            if w["data_h"][k][x] != aw["data_h"][k][x]:
+                err("window.payload:vs-threaded", o, w["data_h"][k], aw["data_h"][k])
+                break
+            if as_ >= 0 and (f32_bits(w["ts_sent"][k][x]) != f32_bits(aw["ts_sent"][k][x]) or f32_bits(w["ts_recv"][k][x]) != f32_bits(aw["ts_recv"][k][x])):
+                err("window.ts:vs-threaded", o, w["ts_recv"][k], aw["ts_recv"][k])
+                break
+
+
+def c01_task(arg):
+    """threaded record -> graph -> compiled rollout, three-way comparison of every executed step"""
+    from vf.compiledx import build_graph, conns_meta, init_with_rng, make_rollout, rollout_with_record, summarize_compiled_record
+    from vf.probes import build_nodes, f32_bits, node_ids
+    from vf.refcomp import RefExec
+
+    src = arg["src"]
+    out = dict(name=src["name"], instances=0, states=0, transitions=0, traces=0, violations=[], skipped=None)
+    graphs_raw, eps_py, aux = _prep(src)
+    if graphs_raw is None:
+        out["skipped"] = "threaded episode not convertible (unfinished or empty connection)"
+        return out
+    res = aux["result"]
+    a_eps = [ep for ep in res["episodes"] if "record" in ep]
+    ids = node_ids(src["spec"])
+    for (mode, prune) in _variants(arg):
+        nodes, sup = build_nodes(src["spec"], xp="jnp")
+        g = build_graph(nodes, sup, graphs_raw, mode, prune)
+        cm = conns_meta(nodes)
+        fn = make_rollout(g)
+        for e, aep in enumerate(a_eps):
+            rp = dict(src=src, mode=mode, prune=prune, eps=e)
+            gs = init_with_rng(g, res["init_rng"], eps=e)
+            o = rollout_with_record(g, gs, fn=fn)
+            crec = summarize_compiled_record(o.aux["record"])
+            rx = RefExec(eps_py[e], cm, ids, e, res["init_rng"])
+            a_done = (len(aep["obs"]) - 1) if aep["driver"] == "step" else aep.get("runs", 0)
+            errs = []
+            n_exec = 0
+            for n, c in crec.items():
+                c["ts_bits"] = [f32_bits(x) for x in c["ts_start"]]
+                ex = [k for k, s in enumerate(c["seq"]) if s >= 0]
+                is_sup = n == sup.name
+                sup_last = max(ex) if (is_sup and ex) else -1
+                for k in ex:
+                    n_exec += 1
+                    _cmp_step(n, k, c, aep["record"][n]["steps"], rx.payload(n, k), e, is_sup, a_done, errs, sup_last)
+                if is_sup and len(ex) < g.max_steps:
+                    errs.append(("supervisor-steps-not-executed", (n, len(ex), g.max_steps)))
+            out["instances"] += 1
+            out["traces"] += 1
+            out["states"] += n_exec
+            out["transitions"] += n_exec
+            seen = set()
+            for sig, det in errs:
+                if sig not in seen:
+                    seen.add(sig)
+                    out["violations"].append((sig, dict(mode=mode, prune=prune, eps=e, detail=det), rp))
+    out["violations"] = out["violations"][:12]
+    return out
+
+
+def _expected_executions(slots, sup, e, n_runs, overridden=(), include_sup_upto=None):
+    """multiset {(kind, seq): 1} the compiled runtime must execute in episode e when n_runs partitions are run"""
+    import collections
+
+    exp = collections.Counter()
+    for name, s in slots.items():
+        for p in range(n_runs):
+            if s["run"][e, p]:
+                if s["kind"] == sup:
+                    continue
+                exp[(s["kind"], int(s["seq"][e, p]))] += 1
+    upto = n_runs if include_sup_upto is None else include_sup_upto
+    for p in range(upto):
+        if p not in overridden:
+            exp[(sup, p)] += 1
+    return exp
+
+
+def c06c_task(arg):
+    """compiled half of C06: count executions of every probe step through an ordered io_callback"""
+    import collections
+
+    import jax
+
+    from vf.compiledx import build_graph, init_with_rng, make_rollout
+    from vf.probes import build_nodes, node_ids, override_output
+    from vf.refcomp import timings_to_py
+
+    src = arg["src"]
+    out = dict(name=src["name"], instances=0, states=0, transitions=0, traces=0, violations=[], skipped=None, uniform=0)
+    graphs_raw, eps_py, aux = _prep(src)
+    if graphs_raw is None:
+        out["skipped"] = "threaded episode not convertible"
+        return out
+    ids = node_ids(src["spec"])
+    for (mode, prune) in _variants(arg):
+        trace = []
+        nodes, sup = build_nodes(src["spec"], xp="jnp", trace=trace)
+        g = build_graph(nodes, sup, graphs_raw, mode, prune)
+        slots = timings_to_py(g.timings)
+        P = next(iter(slots.values()))["run"].shape[1]
+        M = P - 1
+
+        def judge(tag, e, exp):
+            jax.effects_barrier()
+            got = collections.Counter((t["node"], t["seq"]) for t in trace)
+            wrong_eps = [t for t in trace if t["eps"] != e]
+            out["traces"] += 1
+            out["states"] += len(exp)
+            out["transitions"] += len(trace)
+            rp = dict(src=src, mode=mode, prune=prune, driver=tag, eps=e)
+            if wrong_eps:
+                out["violations"].append(("compiled:step-with-wrong-eps", dict(mode=mode, driver=tag, eps=e, got=wrong_eps[0]["eps"]), rp))
+            if got != exp:
+                diff = {str(k): (got.get(k, 0), exp.get(k, 0)) for k in set(got) | set(exp) if got.get(k, 0) != exp.get(k, 0)}
+                kinds = sorted({"twice" if a > b else "missing" for a, b in diff.values()})
+                out["violations"].append(("compiled:exactly-once:" + ",".join(kinds), dict(mode=mode, prune=prune, driver=tag, eps=e, diff=dict(list(diff.items())[:8])), rp))
+            del trace[:]
+
+        fn = make_rollout(g, record=False)
+        for e in range(len(eps_py)):
+            del trace[:]
+            gs = init_with_rng(g, None, eps=e)
+            jax.block_until_ready(fn(gs))
+            judge("rollout-jit", e, _expected_executions(slots, sup.name, e, M))
+        if arg.get("eager", True):
+            e = len(eps_py) - 1
+            gs = init_with_rng(g, None, eps=e)
+            for _ in range(min(M, 2)):
+                gs = g.run(gs)
+            jax.block_until_ready(gs)
+            judge("run-eager-x2", e, _expected_executions(slots, sup.name, e, min(M, 2)))
+            # reset / step with the supervisor's step overridden on odd steps
+            gs = init_with_rng(g, None, eps=0)
+            gs, ss = jax.jit(g.reset)(gs)
+            step_plain = jax.jit(lambda a: g.step(a))
+            step_ovr = jax.jit(lambda a, b, c: g.step(a, b, c))
+            ovr = []
+            nst = min(M - 1, 3)
+            for k in range(nst):
+                if k % 2 == 1:
+                    ovr.append(k)
+                    gs, ss = step_ovr(gs, ss, override_output(ids[sup.name], 0, k))
+                else:
+                    gs, ss = step_plain(gs)
+            jax.block_until_ready(gs)
+            judge("reset-step-override", 0, _expected_executions(slots, sup.name, 0, nst + 1, overridden=ovr, include_sup_upto=nst))
+        if arg.get("disable_jit"):
+            with jax.disable_jit():
+                gs = init_with_rng(g, None, eps=0)
+                gs = g.run(gs)
+                gs = g.run(gs) if M >= 2 else gs
+                jax.block_until_ready(gs)
+            judge("run-disable_jit", 0, _expected_executions(slots, sup.name, 0, min(M, 2)))
+        out["instances"] += 1
+    out["violations"] = out["violations"][:12]
+    return out
+
+
+# ---------------------------------------------------------------------------------------------------------------
+# C13 recording is faithful and never changes the execution
+# ---------------------------------------------------------------------------------------------------------------
+def _combos(which):
+    import itertools
+
+    keys = ("params", "rng", "inputs", "state", "output")
+    allc = [dict(zip(keys, bits)) for bits in itertools.product((False, True), repeat=5)]
+    if which == "all":
+        return allc
+    return [allc[i] for i in which]
+
+
+def _row_vs_trace(n, k, row, t, errs, tag):
+    """row: dict of the recorded fields of (n, k) (only those recorded); t: the probe's own trace entry"""
+    from vf.probes import f32_bits
+
+    def err(sig, *d):
+        if len(errs) < 10:
+            errs.append((f"{tag}:{sig}", (n, k) + d))
+
+    if row.get("seq") != k:
+        err("seq", row.get("seq"))
+    if f32_bits(row["ts_start"]) != f32_bits(t["ts"]):
+        err("ts_start", row["ts_start"], t["ts"])
+    if "rng" in row and [int(x) & 0xFFFFFFFF for x in row["rng"]] != [int(x) for x in t["rng"]]:
+        err("rng", row["rng"], t["rng"])
+    if "state_h" in row and int(row["state_h"]) & 0xFFFFFFFF != t["state_h"]:
+        err("state", row["state_h"], t["state_h"])
+    if "out_h" in row and row["out_h"] is not None and int(row["out_h"]) & 0xFFFFFFFF != t["out_h"]:
+        err("output", row["out_h"], t["out_h"])
+    if "inputs" in row:
+        tin = {x[0]: x for x in t["inputs"]}
+        for o, w in row["inputs"].items():
+            _, seqs, a, b, dh, tags = tin[o]
+            if [(-1 if s < 0 else s) for s in w["seq"]] != [(-1 if s < 0 else s) for s in seqs]:
+                err("inputs.seq", o, w["seq"], seqs)
+            elif [int(x) & 0xFFFFFFFF for x in w["data_h"]] != [int(x) for x in dh]:
+                err("inputs.data", o, w["data_h"], dh)
+            elif any(s >= 0 and (f32_bits(x) != f32_bits(y) or f32_bits(u) != f32_bits(v)) for s, x, y, u, v in zip(seqs, w["ts_sent"], a, w["ts_recv"], b)):
+                err("inputs.ts", o, w["ts_recv"], b)
+
+
+def _rows(summary_node, combo):
+    """iterate (k, row dict) over a summarized record of one node (threaded or compiled)"""
+    st = summary_node
+    for k, s in enumerate(st["seq"]):
+        row = dict(seq=s, ts_start=st["ts_start"][k])
+        if "rng" in st:
+            row["rng"] = st["rng"][k]
+        if "state_h" in st:
+            row["state_h"] = st["state_h"][k]
+        if "out_h" in st:
+            row["out_h"] = st["out_h"][k] if k < len(st["out_h"]) else None
+        if "inputs" in st:
+            row["inputs"] = {o: {f: w[f][k] for f in ("seq", "ts_sent", "ts_recv", "data_h")} for o, w in st["inputs"].items()}
+        yield k, row
+
+
+def c13_threaded_task(arg):
+    """threaded runtime: one spec, a list of (combo, max_records); baseline = recording off, same base schedule"""
+    from vf.asyncx import run_job
+
+    spec, user, policy = arg["spec"], arg["user"], arg["policy"]
+    out = dict(name=arg["name"], instances=0, states=0, transitions=0, traces=0, violations=[], skipped=None)
+    off = dict(params=False, rng=False, inputs=False, state=False, output=False)
+    base = run_job(dict(spec=spec, user=user, policy=policy, record=off))
+    if not base["finished"]:
+        out["skipped"] = "baseline episode did not finish"
+        return out
+
+    def observable(res):
+        tr = [{k: v for k, v in t.items() if k != "thread"} for t in res["trace"]]
+        return dict(trace=tr, obs=[ep["obs"] for ep in res["episodes"]])
+
+    b_obs = observable(base)
+    sup = spec["supervisor"]
+    for combo, maxrec in arg["cases"]:
+        job = dict(spec=spec, user=user, policy=policy, record=combo, max_records=maxrec)
+        res = run_job(job)
+        rp = dict(kind="threaded", job=job)
+        out["instances"] += 1
+        out["traces"] += 1
+        errs = []
+        if not res["finished"]:
+            errs.append(("threaded:recording-changed-liveness", (combo, maxrec)))
+        else:
+            if observable(res) != b_obs:
+                o = observable(res)
+                where = "obs" if o["obs"] != b_obs["obs"] else ("trace-length" if len(o["trace"]) != len(b_obs["trace"]) else "trace")
+                errs.append(("threaded:recording-changed-execution:" + where, (combo, maxrec)))
+            start = 0
+            for ep in res["episodes"]:
+                if "record" not in ep:
+                    continue
+                tr = {(t["node"], t["seq"]): t for t in res["trace"][start : ep["trace_len"]]}
+                start = ep["trace_len"]
+                done = (len(ep["obs"]) - 1) if ep["driver"] == "step" else ep.get("runs", 0)
+                for n, nr in ep["record"].items():
+                    st = nr["steps"]
+                    K = len(st["seq"])
+                    out["states"] += K
+                    if maxrec is not None and K > maxrec:
+                        errs.append(("threaded:more-rows-than-max_records", (n, K, maxrec)))
+                    has_inputs = any(e_["n"] == n for e_ in spec["edges"])
+                    for f, present in (("rng", combo["rng"]), ("state_h", combo["state"]), ("out_h", combo["output"]), ("inputs", combo["inputs"])):
+                        if f == "inputs" and not has_inputs:
+                            continue
+                        if (f in st) != bool(present) and K > 0:
+                            errs.append(("threaded:record-setting-not-honoured", (n, f, present)))
+                    for k, row in _rows(st, combo):
+                        out["transitions"] += 1
+                        if n == sup and (k >= done or k in ep["overridden"]):
+                            continue  # never executed by node.step: no trace entry to compare with
+                        t = tr.get((n, k))
+                        if t is None:
+                            errs.append(("threaded:recorded-step-never-executed", (n, k)))
+                            continue
+                        _row_vs_trace(n, k, row, t, errs, "threaded")
+                        if "state_h" in st and k + 1 < K and not (n == sup and k + 1 > done) and st["state_h"][k + 1] != t["out_h"]:
+                            errs.append(("threaded:state-before-next-step!=state-returned", (n, k, st["state_h"][k + 1], t["out_h"])))
+        seen = set()
+        for sig, det in errs:
+            if sig not in seen:
+                seen.add(sig)
+                out["violations"].append((sig, dict(combo=combo, max_records=maxrec, detail=det), rp))
+    out["violations"] = out["violations"][:12]
+    return out
+
+
+def _leaves_no_aux(gs):
+    import jax
+
+    g = gs.replace(aux=None)
+    return [onp.asarray(x) for x in jax.tree_util.tree_leaves(g)]
+
+
+def c13_compiled_task(arg):
+    """compiled runtime: one source/mode, list of combos; n runs in 0..M+2; baseline = recording off"""
+    import jax
+
+    from vf.compiledx import build_graph, init_with_rng, summarize_compiled_record
+    from vf.probes import build_nodes
+    from vf.refcomp import timings_to_py
+
+    src, mode, prune = arg["src"], arg["mode"], arg["prune"]
+    out = dict(name=src["name"] + ":" + mode, instances=0, states=0, transitions=0, traces=0, violations=[], skipped=None)
+    graphs_raw, eps_py, aux = _prep(src)
+    if graphs_raw is None:
+        out["skipped"] = "not convertible"
+        return out
+    trace = []
+    nodes, sup = build_nodes(src["spec"], xp="jnp", trace=trace)
+    g = build_graph(nodes, sup, graphs_raw, mode, prune)
+    slots = timings_to_py(g.timings)
+    M = g.max_steps
+    run_off = jax.jit(g.run)
+    for e in arg.get("eps", [0]):
+        gs0 = init_with_rng(g, None, eps=e)
+        base = [_leaves_no_aux(gs0)]
+        gs = gs0
+        for _ in range(M + 2):
+            gs = run_off(gs)
+            base.append(_leaves_no_aux(gs))
+        jax.effects_barrier()
+        for combo in arg["combos"]:
+            rp = dict(kind="compiled", src=src, mode=mode, prune=prune, combos=[combo], eps=[e])
+            errs = []
+            del trace[:]
+            gsr = g.init_record(gs0, **combo)
+            run_on = jax.jit(g.run)
+            states = [gsr]
+            for _ in range(M + 2):
+                states.append(run_on(states[-1]))
+            jax.block_until_ready(states[-1])
+            jax.effects_barrier()
+            out["instances"] += 1
+            out["traces"] += 1
+            for n_runs, st in enumerate(states):
+                out["transitions"] += 1
+                lv = _leaves_no_aux(st)
+                if len(lv) != len(base[n_runs]) or any(not onp.array_equal(a, b) for a, b in zip(lv, base[n_runs])):
+                    errs.append(("compiled:recording-changed-execution", (n_runs,)))
+                    break
+            # record after exactly M runs vs the probe's own trace of those M runs
+            del trace[:]
+            st = gsr
+            for _ in range(M):
+                st = run_on(st)
+            jax.block_until_ready(st)
+            jax.effects_barrier()
+            tr = {(t["node"], t["seq"]): t for t in trace}
+            rec = summarize_compiled_record(st.aux["record"])
+            for n, c in rec.items():
+                K = len(c["seq"])
+                out["states"] += K
+                has_inputs = any(e_["n"] == n for e_ in src["spec"]["edges"])
+                for f, present in (("rng", combo["rng"]), ("state_h", combo["state"]), ("out_h", combo["output"]), ("inputs", combo["inputs"]), ("params_p", combo["params"])):
+                    if f == "inputs" and not has_inputs:
+                        continue
+                    if (f in c) != bool(present):
+                        errs.append(("compiled:record-setting-not-honoured", (n, f, present)))
+                for k, row in _rows(c, combo):
+                    t = tr.get((n, k))
+                    executed = row["seq"] >= 0
+                    if n == sup.name:
+                        # the supervisor's row k is written (inputs/state/rng) when partition k closes, its output when it steps
+                        if executed and k < M and t is not None:
+                            _row_vs_trace(n, k, row, t, errs, "compiled")
+                        elif executed and k < M and t is None:
+                            errs.append(("compiled:recorded-step-never-executed", (n, k)))
+                        continue
+                    if t is None:
+                        if executed:
+                            errs.append(("compiled:recorded-step-never-executed", (n, k)))
+                        else:  # never executed rows stay marked with -1 (unsigned payload leaves cannot hold -1: not demanded)
+                            flat = [c["eps"][k], row["ts_start"], c["ts_end"][k], c["delay"][k]] + ([c["state_n"][k]] if "state_n" in c else []) + (list(c["out_tag"][k]) if "out_tag" in c else [])
+                            if any(x != -1 for x in flat):
+                                errs.append(("compiled:unexecuted-row-not-minus-one", (n, k, flat[:8])))
+                        continue
+                    if not executed:
+                        errs.append(("compiled:executed-step-not-recorded", (n, k)))
+                        continue
+                    _row_vs_trace(n, k, row, t, errs, "compiled")
+                    if "state_h" in c and k + 1 < K and c["seq"][k + 1] >= 0 and int(c["state_h"][k + 1]) & 0xFFFFFFFF != t["out_h"]:
+                        errs.append(("compiled:state-before-next-step!=state-returned", (n, k)))
+            seen = set()
+            for sig, det in errs:
+                if sig not in seen:
+                    seen.add(sig)
+                    out["violations"].append((sig, dict(combo=combo, mode=mode, eps=e, detail=det), rp))
+    out["violations"] = out["violations"][:12]
+    return out
